@@ -203,10 +203,24 @@ def nontrivial_mgr(case, impl):
     return ("oc" in impl) and ("R[g" in impl or "X[" in impl)
 
 
+def oracle_mgrx(case, impl):
+    """direct checks of the two extra scenarios"""
+    if case == "mgrx overlap":
+        # most recent election offered only endpoint 0 (healthy): queries must run on it; callbacks 0,1,0
+        if impl != "active=0 changes=0,1,0":
+            return "after overlapping elections the most recent one (endpoint 0 only, healthy) must be in force with changes 0,1,0: " + impl
+    if case == "mgrx slow":
+        if impl != "active=1 changes=1":
+            return "candidate 0's probe timed out, candidate 1 is healthy: 1 must be elected (each probe has its own time budget): " + impl
+    return None
+
+
 SPEC = dict(
     lean_module="NV.Props.C08",
     areas=[dict(name="mgr", n_quick=4000, n_thorough=160000, shards_thorough=8,
-                oracle=lambda c, i: oracle_mgr(c, i, "c08"), nontrivial=nontrivial_mgr, timeout=1200)],
+                oracle=lambda c, i: oracle_mgr(c, i, "c08"), nontrivial=nontrivial_mgr, timeout=1200),
+           # overlapping elections (one held inside OnChange while another completes): the later election must win
+           dict(name="mgrx", n_quick=3, n_thorough=20, shards_thorough=1, oracle=oracle_mgrx, timeout=300)],
     level_text="Kernel-checked theorems over an executable model of resolver/endpoint/manager.go (object heap, virtual clock, started-but-"
                "not-yet-run elections): the nested election loops equal a flat left-to-right scan of the provider-major candidate list "
                "that stops at the first passing probe / first network-unreachable error and otherwise falls back to the first listed "
